@@ -147,6 +147,26 @@ func loadKnown(path string) ([]KnownFinding, error) {
 	return kf.Findings, nil
 }
 
+// Import copies the obligations that a sibling property's rule set produced (run on the same program) into this report
+// under the given rule id; only the sibling rules accepted by keep are taken. Unmet floors of those rules become undecided.
+func (r *Report) Import(sub *Report, asRule string, keep func(rule string) bool) {
+	for _, o := range sub.Obls {
+		if !keep(o.Rule) {
+			continue
+		}
+		n := o
+		n.Construct = o.Rule + ": " + o.Construct
+		n.Rule = asRule
+		r.Obls = append(r.Obls, n)
+		r.count[asRule]++
+	}
+	for rule, fl := range sub.floor {
+		if keep(rule) && sub.count[rule] < fl {
+			r.Und(asRule, rule+": non-vacuity", "", fmt.Sprintf("sibling rule %s matched %d constructs, needs at least %d", rule, sub.count[rule], fl))
+		}
+	}
+}
+
 // Failing reports whether Finish would exit non-zero (unlisted violations, undecided obligations or unmet floors).
 func (r *Report) Failing(verifDir string) bool {
 	for rule, n := range r.floor {
